@@ -288,6 +288,8 @@ pub struct Check {
     replay_ran: bool,
     exhaustive_all: bool,
     only_stage: Option<String>,
+    /// proptest shrink budget per failing shard (lower it for expensive cases)
+    pub max_shrink_iters: u32,
 }
 
 fn hash_str(s: &str) -> u64 {
@@ -376,6 +378,7 @@ impl Check {
             replay_ran: false,
             exhaustive_all: false,
             only_stage,
+            max_shrink_iters: 3000,
         }
     }
 
@@ -544,11 +547,12 @@ impl Check {
                 let strategy = &strategy;
                 let oracle = &oracle;
                 let known_sigs = &known_sigs;
+                let shrink = self.max_shrink_iters;
                 handles.push(
                     std::thread::Builder::new()
                         .stack_size(64 << 20)
                         .spawn_scoped(scope, move || {
-                            run_shard(n, seed, strategy(), oracle, known_sigs)
+                            run_shard(n, seed, strategy(), oracle, known_sigs, shrink)
                         })
                         .unwrap(),
                 );
@@ -912,6 +916,7 @@ fn run_shard<C, S, F>(
     strategy: S,
     oracle: &F,
     known_sigs: &[String],
+    max_shrink_iters: u32,
 ) -> ShardResult<C>
 where
     C: Debug + Clone + Serialize,
@@ -927,7 +932,7 @@ where
         source_file: None,
         test_name: None,
         max_shrink_time: 0,
-        max_shrink_iters: 3000,
+        max_shrink_iters,
         max_default_size_range: 100,
         result_cache: proptest::test_runner::basic_result_cache,
         verbose: 0,
